@@ -699,7 +699,8 @@ def compare_one(ctx, c, r, mo):
                 diffs.append(('t[%d]' % i, float(a), float(bb)))
                 break
     for k in ('shape_dur', 'freq', 'phase', 'dead', 'ring', 'delay', 'end'):
-        if not rel_ok(mo[k], r[k]):
+        mv = max(mo[k], Fraction(0)) if k == 'end' else mo[k]      # calc_duration is max(0, event end)
+        if not rel_ok(mv, r[k]):
             diffs.append((k, float(mo[k]), float(r[k])))
     mu = use_str(mo['use']) if mo['use'] else None
     if mu != r['use']:
@@ -779,6 +780,12 @@ def evaluate(ctx, c, known_sigs):
         ctx.evaluated(key, nontrivial=False)
         return r
     ctx.count('outcome.%s.ok' % c['maker'])
+    if not np.all(np.isfinite(r['signal'])):
+        # envelope whose samples sum to zero (e.g. one sample on a zero of the window): 0/0 in the normalisation.
+        # The theorems carry the hypothesis sum w <> 0; nothing to check here.
+        ctx.count('degenerate.envelope-sum-zero')
+        ctx.evaluated(key, nontrivial=False)
+        return None
     if c.get('duration') is not None and c['duration'] <= 0:
         # gauss accepts non-positive durations (empty pulse, negative shape_dur); the property quantifies over
         # positive durations, so only the correspondence is checked there
